@@ -1142,6 +1142,7 @@ class Exec:
             g = s.ghost.get("out")
             if g is None:
                 raise Unsupported("yield outside a generator under contract")
+            v = self.snapshot(v, s)      # the yielded value as it is now (later mutation of the object is not seen)
             n, at = g
             view_upd = self.fr.contract.views if self.fr.contract else {}
             s.ghost = dict(s.ghost)
@@ -1152,6 +1153,20 @@ class Exec:
                 s.ghost["view_" + vname] = upd(self, s, s.ghost.get("view_" + vname), v)
             out.append(s)
         return out
+
+    def snapshot(self, v, st):
+        if isinstance(v, Ref):
+            hv = st.get(v)
+            if isinstance(hv, (Vec, Tab)):
+                return hv
+            if isinstance(hv, ListV):
+                return tuple(self.snapshot(x, st) for x in hv.items)
+            return v
+        if isinstance(v, tuple):
+            return tuple(self.snapshot(x, st) for x in v)
+        if isinstance(v, Rec):
+            return Rec({k: self.snapshot(x, st) for k, x in v.f.items()}, v.name)
+        return v
 
     def st_Assign(self, n, st):
         out = []
@@ -1656,13 +1671,6 @@ class ClassV:
 class RegexV:
     def __init__(self, pat):
         self.pat = pat
-
-
-class OptV:
-    """Optional scalar (element of an Opt-typed vector)."""
-
-    def __init__(self, none, val):
-        self.none, self.val = to_z3(none), val
 
 
 class IterV:
